@@ -1695,6 +1695,13 @@ class Choice(Type):
                 raise e
             length -= (offset - decoder.number_of_bits)
 
+            # Never move backwards in the data if the addition is
+            # longer than the length of its open type says, as the
+            # same data would be decoded over and over again. Only
+            # skip the padding bits that complete its last octet.
+            if length < 0:
+                length %= 8
+
         decoder.skip_bits(length)
 
         return (name, decoded)
